@@ -88,7 +88,7 @@ CHECKS.update({
             "MatMul.tla transcribes QTensorLinear.forward, the CPU route selection of quanto::qbytes_mm and the contraction dtype of each route; TLC checks route totality, "
             "IntMMOnlyInt8Pair, PackOnlyBf16, LowBitFallsBack and NoIntermediateOverflow over the decision space (3 dtypes x 4 activation kinds x 5 weight qtypes x per-axis/per-tensor x "
             "sizes on both sides of every threshold x batch ranks x bias) and emits each configuration with an operand family whose exact product it can compute (integers x powers of two). "
-            "Every configuration is executed (F.linear, torch.matmul; contiguous and strided; each call in a forked child) and TLC validates dtype, shape, finiteness and values: bit-exact on the exact "
+            "Every configuration is executed (F.linear, torch.matmul, and for rank-3 activations torch.bmm against a quantized or plain batch of matrices; contiguous and strided; each call in a forked child) and TLC validates dtype, shape, finiteness and values: bit-exact on the exact "
             "domain, accumulation bound elsewhere. The route actually taken is observed by wrapping torch._int_mm / _weight_int8pack_mm from outside.",
             "CPU routes only. Known findings (float16 + float8 activations; bfloat16 int8-pack route) are matched by configuration signature.",
             "DESIGN.md 3.6, 5/C07, 7.2"),
